@@ -351,6 +351,11 @@ func (r *resolver) resolve(ctx context.Context, vk resolve.VersionKey, requireme
 				if err := g.AddEdge(concreteVersions[cur.versionKey], id, d.Version, d.Type); err != nil {
 					return nil, false, err
 				}
+				// The node was added for another artifact of this version key
+				// (a different classifier or type): this artifact is resolved
+				// to it too.
+				concreteVersions[c] = id
+				resolvedPackages[c.packageKey] = true
 				continue
 			}
 
